@@ -369,6 +369,19 @@ class ChainConstructor(FunctionContract):
         return out
 
     def replay(self, model, clause, case):
+        if "copy" in clause or "untouched" in clause:
+            from contracts import battery
+            from rpylib.grid.spatial import CTMCGridGeometric
+            from rpylib.process.markovchain.markovchain import MarkovChainProcess
+            from rpylib.distribution.sampling import SamplingMethod
+            from rpylib.model.levymodel.levymodel import TruncatedLevyMeasure
+            m = battery.models(("hem",))["hem"]
+            nu0, a0, rep0 = m.levy_triplet.nu, m.levy_triplet.a, m.levy_triplet.representation
+            narrow = CTMCGridGeometric.create_with_bounds(h=0.05, truncations=(-0.2, 0.2), dimension=1, nb_of_points_on_each_side=4)
+            MarkovChainProcess(m, SamplingMethod.INVERSION, narrow)
+            t = m.levy_triplet
+            bad = t.nu is not nu0 or isinstance(t.nu, TruncatedLevyMeasure) or t.a != a0 or t.representation != rep0
+            return (bool(bad), {"callers_measure_after_building_a_chain": type(t.nu).__name__, "drift": [a0, t.a], "representation": [rep0.name, t.representation.name]})
         if "mean" in clause or "drift" in clause or "truncated" in clause:
             return native_mean_replay()
         return None
